@@ -359,7 +359,13 @@ impl<const N: usize> IoEx<N> {
             }
             Err(PanicKind::Other(m)) => {
                 self.panicked = true;
-                let own = self.own();
+                // generic deque operations on bytes report to their own properties
+                let own = match self.cur_op {
+                    Op::PushBack | Op::PushFront | Op::TryPushBack | Op::TryPushFront => cls::RET | cls::IDENT,
+                    Op::PopBack | Op::PopFront | Op::Remove | Op::SwapRemoveBack | Op::SwapRemoveFront | Op::TruncateBack | Op::TruncateFront | Op::Clear | Op::MakeContiguous
+                    | Op::ExtendFromSlice | Op::Fill | Op::IoExtendRef => cls::RET,
+                    _ => self.own(),
+                };
                 self.fail(own | cls::PANIC_SPEC, format!("{} panicked: {m}", self.cur_op.name()));
                 None
             }
@@ -1520,7 +1526,7 @@ pub fn gen_io(seed: u64, prop: &str, run: u64) -> Script {
     let pid = prop.bytes().fold(0u64, |a, b| a * 131 + b as u64);
     let mut rng = Rng::new(mix(&[seed, 2, pid, run]));
     let lays = io_layouts();
-    let generic = matches!(prop, "C01io" | "C09io" | "C10io" | "C11io" | "C20io");
+    let generic = matches!(prop, "C01io" | "C02io" | "C09io" | "C10io" | "C11io" | "C20io");
     let (prod, cons): (&[Op], &[Op]) = if common_only {
         (COMMON_P, COMMON_C)
     } else if generic {
